@@ -680,6 +680,76 @@ def reached_under(body, pt, start, leaf, stops, avoid=(), strict=False):
     return out
 
 
+def walk_concrete(body, c, start, stops, discr_val=None, call_val=None, region=None, env0=None, limit=6000):
+    """Blocks of `stops` reached from `start` in a concrete walk: plain locals carry small integers (constants, copies, `!`, `&`, `|`,
+    `^`, `==`, `!=` of known values; `discr_val(place)` for a discriminant read, `call_val(block)` for a call result), a test on a known
+    value takes its edge, a test on an unknown value takes all.  Over-approximates reachability under the given valuation (so "not
+    reached" is definite).  The walk stays inside `region` (if given) and never re-enters `start`."""
+    def opval(o, env):
+        if o is None:
+            return None
+        if o.k == "const":
+            return int(o.val) if isinstance(o.val, (bool, int)) else None
+        if o.place is not None and not o.place.proj:
+            return env.get(o.place.local)
+        return None
+    out, seen = set(), set()
+    stack = [(start, dict(env0 or {}))]
+    steps = 0
+    while stack:
+        bb, env = stack.pop()
+        key = (bb, tuple(sorted((k, v) for k, v in env.items() if v is not None)))
+        if key in seen:
+            continue
+        seen.add(key)
+        steps += 1
+        if steps > limit:
+            return set(stops)
+        if bb in stops:
+            out.add(bb)
+            continue
+        env = dict(env)
+        blk = body.blocks[bb]
+        for st in blk.stmts:
+            if st.k != "assign" or st.place.proj:
+                continue
+            rv, v = st.rv, None
+            if rv.k == "use":
+                v = opval(rv.op, env)
+            elif rv.k == "discriminant" and discr_val is not None:
+                v = discr_val(rv.place)
+            elif rv.k == "unop" and rv.unop == "Not":
+                a = opval(rv.a, env)
+                v = None if a is None else (0 if a else 1)
+            elif rv.k == "binop":
+                a, b2 = opval(rv.a, env), opval(rv.b, env)
+                if rv.binop == "BitAnd":
+                    v = 0 if (a == 0 or b2 == 0) else (a & b2 if None not in (a, b2) else None)
+                elif rv.binop == "BitOr":
+                    v = 1 if (a == 1 or b2 == 1) else (a | b2 if None not in (a, b2) else None)
+                elif None not in (a, b2):
+                    v = {"BitXor": a ^ b2, "Eq": int(a == b2), "Ne": int(a != b2)}.get(rv.binop)
+            env[st.place.local] = v
+        t = blk.term
+        if t.k == "call":
+            if t.dest is not None and not t.dest.proj:
+                env[t.dest.local] = call_val(blk) if call_val is not None else None
+            succs = [t.target] if t.target is not None else []
+        elif t.k == "switch":
+            d = opval(t.discr, env)
+            if d is None:
+                succs = [tg for _, tg in t.targets] + [t.otherwise]
+            else:
+                succs = [tg for v_, tg in t.targets if v_ == d] or [t.otherwise]
+        else:
+            succs = [y for y in c.succ[bb] if not body.blocks[y].cleanup]
+        for y in succs:
+            if y is None or y == start or (region is not None and y not in region):
+                continue
+            stack.append((y, env))
+    return out
+
+
 def chunk_loop_body(facts):
     """The body that holds the LZMA2 chunk loop: the one calling both chunk parsers (found by what it calls, not by name)."""
     for b in facts.bodies:
